@@ -25,6 +25,12 @@ tail -3 $OUT/demo_with.log
 echo "== suite WITH change (expect PASS)"
 mv $WT/zz_demo_test.go /tmp/zz_demo_$NAME.go; mv $WT/OUT $WT/_OUT
 go test -mod=mod -vet=off -count=1 -timeout 25m ./... > $OUT/suite_with.log 2>&1; RS=$?
+# the Go 1.25.0 runtime occasionally livelocks in its GC under synctest on a loaded machine (one test spins until the
+# 25 min timeout), and TestJSONTracer/TestPBTracer share fixed /tmp paths with concurrent runs: rerun once in those cases
+if [ $RS -ne 0 ] && grep -q "test timed out\|signal: \|TestJSONTracer\|TestPBTracer" $OUT/suite_with.log; then
+  cp $OUT/suite_with.log $OUT/suite_with.first_attempt.log
+  go test -mod=mod -vet=off -count=1 -timeout 25m ./... > $OUT/suite_with.log 2>&1; RS=$?
+fi
 tail -3 $OUT/suite_with.log
 mv /tmp/zz_demo_$NAME.go $WT/zz_demo_test.go; mv $WT/_OUT $WT/OUT
 git apply -R $OUT/patch.diff
